@@ -2,6 +2,7 @@ package rules
 
 import (
 	"fmt"
+	"go/types"
 	"strings"
 
 	"golang.org/x/tools/go/ssa"
@@ -21,6 +22,8 @@ func checkC18(p *core.Prog, r *core.Report) {
 	c18R7(p, r)
 	c18R8(p, r)
 	c18R9(p, r)
+	c18R10(p, r)
+	c18R11(p, r)
 	c18R5(p, r)
 }
 
@@ -846,4 +849,218 @@ func c18R9(p *core.Prog, r *core.Report) {
 	if n == 0 {
 		r.Fail("C18/R9: no send on lockWaiter found in TextServerProtocol")
 	}
+}
+
+// c18R10: a lock command handed to the local engine (ProcessCommad /
+// ProcessLockCommand -> LockDB.Lock / UnLock) belongs to the engine from then
+// on: it becomes the hold's command or the engine frees it. A caller that
+// frees it as well - the shape of the forward-and-free loops of the
+// transparency protocols, where the command is *sent away* and freeing is
+// right - returns a live object to the pool: the will's hold is later
+// overwritten by an unrelated connection's request.
+func c18R10(p *core.Prog, r *core.Report) {
+	const rule = "C18/R10"
+	r.Rule(rule, "a lock command passed to the local engine through ProcessCommad / ProcessLockCommand is not passed to FreeLockCommand afterwards by the same function", 4)
+	strip := func(v ssa.Value) ssa.Value {
+		for {
+			switch x := v.(type) {
+			case *ssa.MakeInterface:
+				v = x.X
+			case *ssa.ChangeInterface:
+				v = x.X
+			case *ssa.TypeAssert:
+				v = x.X
+			default:
+				return v
+			}
+		}
+	}
+	calleeName := func(ins ssa.Instruction) string {
+		ci, ok := ins.(ssa.CallInstruction)
+		if !ok {
+			return ""
+		}
+		cc := ci.Common()
+		if cc.IsInvoke() {
+			return cc.Method.Name()
+		}
+		if f := cc.StaticCallee(); f != nil {
+			return f.Name()
+		}
+		return ""
+	}
+	n := 0
+	for _, fn := range p.FuncsIn("server") {
+		if fn.Blocks == nil {
+			continue
+		}
+		type site struct {
+			ins ssa.Instruction
+			arg ssa.Value
+		}
+		var procs, frees []site
+		for _, b := range fn.Blocks {
+			for _, ins := range b.Instrs {
+				name := calleeName(ins)
+				if name != "ProcessCommad" && name != "ProcessLockCommand" && name != "FreeLockCommand" {
+					continue
+				}
+				args := ins.(ssa.CallInstruction).Common().Args
+				if len(args) == 0 {
+					continue
+				}
+				a := strip(args[len(args)-1])
+				if pt, ok := a.Type().Underlying().(*types.Pointer); !ok || core.TypeKey(pt.Elem()) != "protocol.LockCommand" {
+					// interface-typed value: keep it, the identity test below decides
+					if _, isIface := a.Type().Underlying().(*types.Interface); !isIface {
+						continue
+					}
+				}
+				if name == "FreeLockCommand" {
+					frees = append(frees, site{ins, a})
+				} else {
+					procs = append(procs, site{ins, a})
+				}
+			}
+		}
+		for i, pr := range procs {
+			n++
+			key := fmt.Sprintf("%s: %s#%d", core.FuncName(fn), calleeName(pr.ins), i+1)
+			bad := ""
+			for _, fr := range frees {
+				if fr.arg != pr.arg {
+					continue
+				}
+				after := false
+				if fr.ins.Block() == pr.ins.Block() {
+					for _, ins := range pr.ins.Block().Instrs {
+						if ins == pr.ins {
+							after = true
+						}
+						if ins == fr.ins {
+							break
+						}
+					}
+					if !after && blockReaches2(pr.ins.Block(), fr.ins.Block()) {
+						after = true // through a loop
+					}
+				} else {
+					after = blockReaches2(pr.ins.Block(), fr.ins.Block())
+				}
+				if after {
+					bad = p.InstrPos(fr.ins)
+				}
+			}
+			if bad != "" {
+				r.Violate(rule, key, p.InstrPos(pr.ins), "the command handed to the engine is freed by the caller as well (at "+bad+"): the engine keeps it as the hold's command (or has freed it), so a live object returns to the connection's pool and the next request decoded into it rewrites the hold's lock id, key and expiry", nil)
+			} else {
+				r.Hold(rule, key, p.InstrPos(pr.ins), "not freed by the caller afterwards")
+			}
+		}
+	}
+	if n == 0 {
+		r.Fail("C18/R10: no hand-over of a lock command to the engine found")
+	}
+}
+
+// blockReaches2: can control flow from the end of a reach the start of b
+// (through at least one edge)?
+func blockReaches2(a, b *ssa.BasicBlock) bool {
+	seen := map[*ssa.BasicBlock]bool{}
+	work := append([]*ssa.BasicBlock{}, a.Succs...)
+	for len(work) > 0 {
+		c := work[len(work)-1]
+		work = work[:len(work)-1]
+		if c == b {
+			return true
+		}
+		if seen[c] {
+			continue
+		}
+		seen[c] = true
+		work = append(work, c.Succs...)
+	}
+	return false
+}
+
+// c18R11: a connection that announces itself again under another id must take
+// its *previous* id out of the client table; the table lookup and delete are
+// keyed by the id stored on the proxy, so the store of the new id may not come
+// before them on any path - otherwise the new, not yet registered id is
+// deleted and the old entry keeps pointing at this connection (replies for
+// other vanished connections of the old client are routed to it).
+func c18R11(p *core.Prog, r *core.Report) {
+	const rule = "C18/R11"
+	r.Rule(rule, "BinaryServerProtocol.Init: the proxy's client id is overwritten only after the table entry of the previous id has been looked up and removed", 1)
+	fn := mustFunc(p, r, "server.(*BinaryServerProtocol).Init")
+	if fn == nil {
+		return
+	}
+	var stores, deletes []ssa.Instruction
+	for _, b := range fn.Blocks {
+		for _, ins := range b.Instrs {
+			switch x := ins.(type) {
+			case *ssa.Store:
+				if k, ok := storeKey(x.Addr); ok && k == fk("server.ProxyServerProtocol", "clientId") {
+					stores = append(stores, ins)
+				}
+			case *ssa.Call:
+				if bi, ok := x.Call.Value.(*ssa.Builtin); ok && bi.Name() == "delete" {
+					deletes = append(deletes, ins)
+				}
+			case *ssa.Lookup:
+				if _, ok := x.X.Type().Underlying().(*types.Map); ok {
+					deletes = append(deletes, ins)
+				}
+			}
+		}
+	}
+	if len(stores) == 0 || len(deletes) == 0 {
+		r.Fail("C18/R11: Init has no client-id store or no table access (%d/%d)", len(stores), len(deletes))
+		return
+	}
+	key := "server.(*BinaryServerProtocol).Init: new id stored after the old entry is removed"
+	// the instruction that reads the key of a table access: the load of the
+	// proxy's id (a copy taken before the store is as good as the field itself)
+	keyRead := func(d ssa.Instruction) ssa.Instruction {
+		var k ssa.Value
+		switch x := d.(type) {
+		case *ssa.Call:
+			if len(x.Call.Args) == 2 {
+				k = x.Call.Args[1]
+			}
+		case *ssa.Lookup:
+			k = x.Index
+		}
+		if u, ok := k.(*ssa.UnOp); ok {
+			if kk, ok := storeKey(u.X); ok && kk == fk("server.ProxyServerProtocol", "clientId") {
+				return u
+			}
+		}
+		return d
+	}
+	for _, st := range stores {
+		for _, d0 := range deletes {
+			d := keyRead(d0)
+			before := false
+			if st.Block() == d.Block() {
+				for _, ins := range st.Block().Instrs {
+					if ins == st {
+						before = true
+						break
+					}
+					if ins == d {
+						break
+					}
+				}
+			} else {
+				before = blockReaches2(st.Block(), d.Block())
+			}
+			if before {
+				r.Violate(rule, key, p.InstrPos(st), "the proxy's client id is overwritten before the client table is consulted at "+p.InstrPos(d)+": a re-INIT under another id deletes the new id and leaves the old entry pointing at this connection", nil)
+				return
+			}
+		}
+	}
+	r.Hold(rule, key, p.InstrPos(stores[0]), "table access keyed by the previous id")
 }
